@@ -3,5 +3,6 @@ CONSTANTS
   MaxTok = 4
   MaxPaths = 40
 SPECIFICATION Spec
+INVARIANTS MachineIsFold MachineIsDenotation SpellingIrrelevant CountLemma Shape BadIsSticky
 ACTION_CONSTRAINT Emit
 CHECK_DEADLOCK FALSE
